@@ -18,7 +18,8 @@ namespace nmtools::view
     template <typename array_t, typename...slices_t>
     constexpr auto mutable_slice(array_t& array, slices_t...slices)
     {
-        auto slices_pack = nmtools_tuple{slices...};
+        // NOTE: explicit template arguments: with a single tuple-typed slice, CTAD would copy it instead of wrapping it
+        auto slices_pack = nmtools_tuple<slices_t...>{slices...};
         return apply_mutable_slice(array,slices_pack);
     }
 }
